@@ -239,7 +239,10 @@ fn expected(s: &TypeSpec, x: Tr, target: Option<&str>, params: &[String], sigma:
     let supers_ok = supers.iter().all(|sup| {
         // a companion is emitted with the primary's own predicates, so it never constrains more than the primary
         let companion_of_x = matches!((x, sup), (Tr::Ord, Tr::PartialOrd) | (Tr::Eq, Tr::PartialEq) | (Tr::Copy, Tr::Clone)) && false;
-        if companion_of_x || !s.has(*sup) {
+        if !s.has(*sup) && x == Tr::Copy && *sup == Tr::Clone {
+            // the hand-written Clone of the harness is conditional on every type parameter being Clone
+            sigma.iter().all(|(_, m)| marker_has(m, Tr::Clone))
+        } else if companion_of_x || !s.has(*sup) {
             true
         } else {
             expected(s, *sup, None, params, sigma)
@@ -295,8 +298,14 @@ pub fn prepare_with(dna: &[u16], explicit_bounds: bool) -> Option<Case> {
     let mut table_checks: std::collections::BTreeSet<String> = Default::default();
     for (x, target) in &educed {
         let req = required(&s, *x);
-        let no = marker_for(req);
+        // a second failing marker for Copy: a parameter that is not even Clone (it matters where the parameter only
+        // occurs in positions that are Copy whatever it is, and for the `Self: Clone` supertrait predicate)
+        let nos: Vec<&'static str> = if req == Tr::Copy { vec![marker_for(req), "NoClone"] } else { vec![marker_for(req)] };
+        for (ni, no) in nos.iter().copied().enumerate() {
         for mask in 0..(1u32 << params.len()) {
+            if ni > 0 && mask == 0 {
+                continue;
+            }
             let sigma: Vec<(String, &'static str)> = params.iter().enumerate().map(|(i, p)| (p.clone(), if mask & (1 << i) != 0 { no } else { "Yes" })).collect();
             // the instantiation must satisfy the type's own declared bounds
             let violates = s.gens.types.iter().zip(sigma.iter()).any(|(tp, (_, m))| {
@@ -344,6 +353,7 @@ pub fn prepare_with(dna: &[u16], explicit_bounds: bool) -> Option<Case> {
                     "    if impls!({fty}: {reqp}) != {e} {{ println!(\"F {{}} HARNESS std-impl table wrong for {fty}: {reqp}\", o.ty); o.fails += 1; }}\n"
                 ));
             }
+        }
         }
     }
     for t in &table_checks {
